@@ -167,7 +167,7 @@ NetInit == [lists |-> <<>>, consumed |-> 0, wat |-> <<>>, sess |-> <<>>, expectS
 
 EvBegin == /\ buf' = R.buf
            /\ caches' = <<>> /\ stages' = <<>> /\ pubs' = <<>> /\ fsubs' = <<>> /\ ctls' = <<>> /\ mons' = <<>>
-           /\ pend' = [mon |-> "", monmode |-> "", consumer |-> <<>>, closedTops |-> {}, closedAll |-> FALSE, srv |-> <<>>, rd |-> <<>>, kept |-> <<>>, wanted |-> <<>>, wr |-> <<>>]
+           /\ pend' = [mon |-> "", monmode |-> "", consumer |-> <<>>, closedTops |-> {}, closedAll |-> FALSE, srv |-> <<>>, rd |-> <<>>, kept |-> <<>>, wanted |-> <<>>, wr |-> <<>>, suspects |-> {}]
            /\ net' = [NetInit EXCEPT !.period = IF "period_us" \in DOMAIN R THEN R.period_us ELSE 0, !.variant = R.variant]
 
 EvCacheNew == /\ Report(IF X(1) \notin Filters THEN "unknown-filter" ELSE "", [cache |-> A, filter |-> X(1)])
@@ -429,15 +429,24 @@ EvQuiesce ==
       uninit == {m \in DOMAIN mons : ~mons[m].inited /\ IsStage(mons[m].sub) /\ ~stages[mons[m].sub].stopping /\ IsReady(mons[m].sub)}
       wstuck == {w \in DOMAIN net.wat : BoxOf(net.wat[w]) # <<>> /\ ~pend.closedAll}
                   \cup {sn \in DOMAIN net.sess : net.sess[sn].alive /\ BoxOf(net.sess[sn]) # <<>> /\ ~pend.closedAll
-                                                  /\ \E w \in DOMAIN net.wat : net.wat[w].sess = sn} IN
+                                                  /\ \E w \in DOMAIN net.wat : net.wat[w].sess = sn}
+      \* A deviation at a quiescence line is reported only if it is still there at the next quiescence line
+      \* (the driver confirms its final barrier with a second one): what is in flight by accident of scheduling
+      \* has moved on by then, what is lost or stuck has not.
+      now == {<<"behind", s, ToString(stages[s].inq)>> : s \in behind} \cup {<<"pending", f, ToString(fsubs[f].outq)>> : f \in pending}
+             \cup {<<"stuck", s, ToString(Head(BoxR(s)))>> : s \in stuck} \cup {<<"wstuck", w, "">> : w \in wstuck}
+             \cup {<<"alive", s, "">> : s \in alive} \cup {<<"uninit", m, "">> : m \in uninit}
+      still == now \cap pend.suspects
+      Kind(k) == \E x \in still : x[1] = k IN
   /\ Report(IF ~R.ok THEN "not-quiescent"
-            ELSE IF behind # {} THEN "lost-at-quiescence"
-            ELSE IF pending # {} THEN "events-not-emitted"
-            ELSE IF stuck # {} \/ wstuck # {} THEN "stuck-at-quiescence"
-            ELSE IF uninit # {} THEN "monitor-not-initialized"
-            ELSE IF alive # {} THEN "cascade-incomplete" ELSE "",
-            [behind |-> [s \in behind |-> stages[s].inq], pending |-> pending, stuck |-> stuck \cup wstuck, alive_below_closed |-> alive])
-  /\ UNCHANGED <<buf, caches, stages, pubs, fsubs, ctls, mons, pend, net>>
+            ELSE IF Kind("behind") THEN "lost-at-quiescence"
+            ELSE IF Kind("pending") THEN "events-not-emitted"
+            ELSE IF Kind("stuck") \/ Kind("wstuck") THEN "stuck-at-quiescence"
+            ELSE IF Kind("uninit") THEN "monitor-not-initialized"
+            ELSE IF Kind("alive") THEN "cascade-incomplete" ELSE "",
+            [still_there_since_the_previous_quiescence |-> still])
+  /\ pend' = [pend EXCEPT !.suspects = IF R.ok THEN now ELSE {}]
+  /\ UNCHANGED <<buf, caches, stages, pubs, fsubs, ctls, mons, net>>
 
 (* ---- monitors ---- *)
 EvCallCreate == /\ pend' = [pend EXCEPT !.mon = IF R.kind = "mon" THEN "monnode" \o ToString(R.node) ELSE @,
@@ -740,7 +749,7 @@ Dispatch ==
 
 Init == /\ i = 1 /\ buf = 100
         /\ caches = <<>> /\ stages = <<>> /\ pubs = <<>> /\ fsubs = <<>> /\ ctls = <<>> /\ mons = <<>>
-        /\ pend = [mon |-> "", monmode |-> "", consumer |-> <<>>, closedTops |-> {}, closedAll |-> FALSE, srv |-> <<>>, rd |-> <<>>, kept |-> <<>>, wanted |-> <<>>, wr |-> <<>>]
+        /\ pend = [mon |-> "", monmode |-> "", consumer |-> <<>>, closedTops |-> {}, closedAll |-> FALSE, srv |-> <<>>, rd |-> <<>>, kept |-> <<>>, wanted |-> <<>>, wr |-> <<>>, suspects |-> {}]
         /\ net = NetInit
 
 Next == /\ i <= Len(Recs)
